@@ -80,7 +80,7 @@ func evalC07(c c07Case) *Failure {
 			if cl.ConnID == 0 && next < len(c.Results) {
 				r := c.Results[next]
 				next++
-				res := doubles.Result{Nil: r.Nil, Val: r.Val}
+				res := doubles.Result{Nil: r.Nil, Val: r.Val, Odd: r.Odd}
 				if r.Err != nil {
 					res.Err = string(*r.Err) + "."
 				}
@@ -413,7 +413,9 @@ func genC07Case(rt *rapid.T, avoid func(string) bool) (c07Case, map[string]bool)
 		k := rapid.IntRange(0, 8).Draw(rt, "nres")
 		for i := 0; i < k; i++ {
 			var r c04Result
-			switch rapid.IntRange(0, 4).Draw(rt, "rescls") {
+			switch rapid.IntRange(0, 5).Draw(rt, "rescls") {
+			case 5:
+				r.Odd = rapid.SampledFrom([]string{"nil-array", "no-type", "unknown-type", "nil-in-array"}).Draw(rt, "odd")
 			case 0:
 				r.Nil = true
 			case 1:
